@@ -62,6 +62,32 @@ CLAIMED = {
          'findings repaired by fix: commits (UB in NEG; opcode document numbering of BitOr/BitAnd).',
     technique='Coq proof (compiler-correctness style induction over expression trees; loader invariant) + regenerated opcode tables (tie A) + differential correspondence in two builds (tie B)',
     design='6/C07'),
+ 'C08': dict(
+    text='Theorems over a model of the only state a face keeps between calls, the lazily filled glyph cache (GlyphCache::glyph and both constructors; the table reader is an oracle, i.e. any pure function of the '
+         'immutable tables): after ANY history of lookups a lookup returns what it returns on the freshly made face; every lookup of every history is the cache-free function spec; both constructors establish '
+         'the invariant.  Tie B: the model, instantiated with the glyph table read from a preloaded face, predicts every GlyphCache::glyph answer of random lookup histories (before and after shaping) on lazy '
+         'and preloaded faces.  Oracle on the API: a probe gr_make_seg + face report after a random history of other calls (segments, destroys, fonts, feature values, labels, linebreaks, justifications, the '
+         'same call earlier) equals the probe on a fresh face; the face report is unchanged by use.',
+    note='partial: that per-call state (Segment, SlotMap, Machine, FSM) is created afresh inside gr_make_seg is checked by the API leg, not proved; the lazily created name table is the one-cell instance of the '
+         'same scheme and is covered by the API leg (labels) only.',
+    technique='Coq proof (memoisation invariant: cache is a subset of the graph of the loader; lifted over arbitrary histories) + cache correspondence + history-independence differential on the API',
+    design='6/C08'),
+ 'C09': dict(
+    text='Theorems over the glyph-cache model: a cache built by gr_face_preloadGlyphs has dropped its loader and is never written - under ANY schedule of lookups by any number of threads every lookup returns '
+         'the single-threaded answer and the cache is left exactly as it was (reads commute).  Tie B: glyph-cache correspondence.  Oracle on the real library built with ThreadSanitizer: 2-8 threads shape, '
+         'query and destroy on one shared cold preloadAll face and shared unhinted fonts; no race report, no table callback after gr_make_face, every result equal to the single-threaded one from a '
+         'separate face.  Liveness of the oracle is recorded by running the same workload on lazy faces (races expected, not judged).',
+    note='partial: the model cannot exhibit the memory model; data-race freedom is decided dynamically by TSan on the schedules the OS produced.  Cmap cache, Silf tables, feature map and name table are '
+         'immutable after construction by inspection and by the TSan runs, not by proof.',
+    technique='Coq proof (read-only state => schedule independence) over hand model + ThreadSanitizer runs of concurrent shapers with result comparison',
+    design='6/C09'),
+ 'C10': dict(
+    text='Theorems over the glyph-cache model: a preloaded and a lazily filled cache answer every history of lookups alike, both with the cache-free function; preloading fails exactly when a glyph is '
+         'unreadable (the "well-formed font" proviso).  Cached vs direct character maps: C13.  Tie B: glyph-cache correspondence on lazy and preloaded faces.  Oracle on the API: the same call sequence '
+         '(face report, segments, labels, value labels, justification) on faces made with every option bit combination 0..7 from the file and from table callbacks: every result compared.',
+    note='partial: file vs callback faces and the dumbRendering bit are covered by the differential only.',
+    technique='Coq proof (preloaded = lazy = spec for all histories) over hand model + cache correspondence + 16-variant differential on the API',
+    design='6/C10'),
  'C11': dict(
     text='Theorems (Coq 8.16) over a model of the three UTF codecs and count_unicode_chars, for ALL buffers: the bounded form never reads '
          'outside [begin,end) and the NUL-terminated form nothing beyond the first NUL (checked reads; validate() is shown to dominate '
